@@ -266,15 +266,38 @@ def exec_routed_sched(job):
     S = sched.Scheduler([f] * a + [g] * (b if b < 99 else 1000) + [f] * 1000)
     remote, undo, errors, evs = None, None, [], {}
     orig_enter, orig_send = client.connector.__enter__, client.connector.unconnected_send
+    orig_exit, orig_await = client.connector.__exit__, client.await_response
+    rev = []          # the route connection's event log (RouteConnTrace): acq after taking it, rel before giving it up, send before, rcv after
 
     def traced_enter(self):
         if not isinstance(self.frame.lock, sched.TracedLock):
             self.frame.lock = sched.TracedLock(S, "route")
-        return orig_enter(self)
+        r = orig_enter(self)
+        rev.append({"s": S.me() or 0, "e": "acq", "of": 0})
+        return r
+
+    def traced_exit(self, typ, val, tbk):
+        rev.append({"s": S.me() or 0, "e": "rel", "of": 0})
+        return orig_exit(self, typ, val, tbk)
 
     def traced_send(self, *args, **kwds):
         S.point("send:route")
+        rev.append({"s": S.me() or 0, "e": "send", "of": 0})
         return orig_send(self, *args, **kwds)
+
+    def traced_await(*args, **kwds):
+        rsp, ela = orig_await(*args, **kwds)
+        try:
+            of = bytes(bytearray(rsp.enip.sender_context.input))[0] if rsp else 0     # the forwarded request carried its session's context
+        except Exception:
+            of = 0
+        reg = False
+        try:
+            reg = bool(rsp) and rsp.enip.command == 0x0065       # connector creation: the Register Session reply
+        except Exception:
+            pass
+        rev.append({"s": S.me() or 0, "e": "rcvreg" if reg else "rcv", "of": of})
+        return rsp, ela
     mem1 = end1 = []
     try:
         remote = live.RemoteSim(texts)
@@ -282,6 +305,7 @@ def exec_routed_sched(job):
         mem1 = dev.get_mem()
         undo = sched.install(S)
         client.connector.__enter__, client.connector.unconnected_send = traced_enter, traced_send
+        client.connector.__exit__, client.await_response = traced_exit, traced_await
 
         def one(s, st):
             data = cpppo.dotdict()
@@ -313,6 +337,7 @@ def exec_routed_sched(job):
         errors.append("setup: %r" % (e,))
     finally:
         client.connector.__enter__, client.connector.unconnected_send = orig_enter, orig_send
+        client.connector.__exit__, client.await_response = orig_exit, orig_await
         if undo:
             undo()
         if remote:
@@ -320,7 +345,7 @@ def exec_routed_sched(job):
     zero = [[[0] * {"INT": 2, "DINT": 4}[tg["type"]] for _ in range(tg["len"])] for tg in cfg["tags"]]
     ev = [e for sid in sorted(evs) for e in evs[sid]]
     return {"cfg1": cfg, "cfg2": cfg, "mem1": mem1, "mem2": zero, "via": {"k": "port", "p": 1, "l": 2}, "ev": ev, "end1": end1, "exc": "", "errors": errors,
-            "schedule": list(schedule), "trace": ["%d:%s" % x for x in S.trace],
+            "schedule": list(schedule), "trace": ["%d:%s" % x for x in S.trace], "rev": list(rev),
             "steps": [[{k: v for k, v in st.items() if k != "fb"} for st in steps] for steps in plan]}
 
 
@@ -380,6 +405,46 @@ def routed_part(ctx, wd, rng):
             ctx.violation("routed_concurrency_error", {"routed": True, "schedule": ln["schedule"], "errors": ln["errors"], "trace": ln["trace"][:300], "steps": ln["steps"]},
                           what="two routed sessions, schedule %s: %s" % (ln["schedule"], "; ".join(ln["errors"])[:300]))
     ev.extra["routed_forced_schedules"] = len(slines)
+    # the shared route connection's own specification: RouteConn (model-checked), and the event logs of the forced schedules against it
+    rc = tlc.run("MC_RouteConn", "MC_RouteConn.cfg", timeout=600, workers=4)
+    ev.tlc("model:routeconn", rc)
+    if rc.violated:
+        ctx.spec_violation(rc, "model:routeconn")
+    rc2 = tlc.run("MC_RouteConn", "MC_RouteConn_sendfirst.cfg", timeout=600, workers=4)
+    ev.tlc("model:routeconn-send-first(expected to violate OwnReply)", rc2)
+    if rc2.violated != "OwnReply":
+        ctx.machinery.append("RouteConn: OwnReply is vacuous (the send-first discipline does not violate it)")
+    logs = [ln for ln in slines if ln.get("rev")]
+    if len(logs) < len(slines) // 2:
+        ctx.machinery.append("route connection event logs missing: %d of %d" % (len(logs), len(slines)))
+    if logs:
+        fd, path = tempfile.mkstemp(prefix="rconn_", suffix=".ndjson")
+        with os.fdopen(fd, "w") as f:
+            for ln in logs:
+                f.write(json.dumps({"ev": ln["rev"]}, separators=(",", ":")) + "\n")
+        try:
+            r4 = tlc.run("RouteConnTrace", "RouteConnTrace.cfg", env={"TRACE_FILE": path}, timeout=1200, workers=1)
+        finally:
+            os.unlink(path)
+        ev.tlc("routeconn-trace", r4)
+        rej = {}
+        notes = set()
+        for j in r4.json:
+            if "note" in j:
+                notes.add(j["tid"])
+            elif "tid" in j:
+                rej.setdefault(j["tid"], j)
+        if notes:
+            print("  NOTE: %d of %d route connection logs forward a request without exclusive use of the connection (a discipline that RouteConn shows admits a wrong reply)" % (len(notes), len(logs)))
+        ev.extra["routeconn_logs_departing_from_hold_discipline"] = len(notes)
+        if not rej and r4.distinct != sum(len(ln["rev"]) + 1 for ln in logs):
+            ctx.machinery.append("RouteConnTrace visited %d states, expected %d" % (r4.distinct, sum(len(ln["rev"]) + 1 for ln in logs)))
+        for tid, j in rej.items():
+            ln = logs[tid - 1]
+            ctx.violation("routeconn_%s" % j["why"][:40], {"routed": True, "why": j["why"], "at": j["at"], "schedule": ln["schedule"], "rev": ln["rev"], "steps": ln["steps"]},
+                          what="shared route connection, schedule %s: %s at event %d of %s" % (ln["schedule"], j["why"], j["at"], json.dumps([(e["s"], e["e"], e["of"]) for e in ln["rev"]])[:300]))
+        ev.extra["routeconn_event_logs"] = len(logs)
+        ev.extra["routeconn_events"] = sum(len(ln["rev"]) for ln in logs)
     lines = lines + [ln for ln in slines if not ln["errors"]]
     ev.sample({"routed_sessions": [[(st["f"]["kind"], st["f"]["req"]["svc"] if st["f"]["kind"] == "rr" else "", st["f"]["route"][0]["l"] if st["f"]["kind"] == "rr" else "")
                                     for st in steps] for steps in lines[0]["steps"]], "replies": [len(e["b"]) for e in lines[0]["ev"]]})
